@@ -156,6 +156,11 @@ class Explorer:
                         st['cells'][n] = self.absval(self.P.expr(ins.ops[0]), st, prev)
                         if on_store:
                             on_store(ins, n, st)
+                elif ins.op == 'call' and (ins.extra.get('callee') in ('__assert_fail', 'abort')):
+                    # a failed assertion / abort(): the path ends here and is nobody's obligation
+                    exits.append(('abort', bname, st))
+                    halted = True
+                    break
                 elif ins.op == 'call' and on_call is not None:
                     if on_call(ins, st) == 'stop':
                         halted = True
